@@ -164,6 +164,15 @@ def _bind_lambda_call(call_node: ast.Call) -> Optional[Dict[str, ast.expr]]:
     return bound
 
 
+def _is_op_with_lambda(node: ast.AST, name: str) -> bool:
+    "Is this `name(seq, lambda ...)` - an operator call whose function can be combined?"
+    return (
+        is_call_of(node, name)
+        and len(node.args) == 2  # type: ignore
+        and isinstance(node.args[1], ast.Lambda)  # type: ignore
+    )
+
+
 def convolute(ast_g: ast.Lambda, ast_f: ast.Lambda):
     "Return an AST that represents g(f(args))"
     # Combine the lambdas into a single call by calling g with f as an argument
@@ -300,12 +309,15 @@ class simplify_chained_calls(FuncADLNodeTransformer):
         """
         source = args[0]
         transform = args[1]
-        assert isinstance(transform, ast.Lambda)
 
         parent_select = self.visit(source)
-        if is_call_of(parent_select, "Select"):
+        if not isinstance(transform, ast.Lambda):
+            # The function is not written as a lambda here (a variable, a projection of a
+            # literal...): nothing to combine it with.
+            return function_call("Select", [parent_select, self.visit(transform)])
+        if _is_op_with_lambda(parent_select, "Select"):
             return self.visit_Select_of_Select(parent_select, transform)
-        elif is_call_of(parent_select, "SelectMany"):
+        elif _is_op_with_lambda(parent_select, "SelectMany"):
             return self.visit_Select_of_SelectMany(parent_select, transform)
         else:
             selection = self.visit(transform)
@@ -348,10 +360,10 @@ class simplify_chained_calls(FuncADLNodeTransformer):
         # g is about to be placed under f's parameter: make sure that parameter's name
         # can't capture a variable g refers to.
         func_f = make_args_unique(func_f)
-        captured_arg = func_f.args.args[0].arg
         captured_body = func_f.body
         new_select = function_call("SelectMany", [captured_body, func_g])
-        new_select_lambda = lambda_build(captured_arg, new_select)
+        # Keep f's own parameter list (it may be positional-only, or carry defaults)
+        new_select_lambda = lambda_body_replace(func_f, new_select)
         new_select_many = function_call("SelectMany", [seq, new_select_lambda])
         return self.visit(new_select_many)
 
@@ -375,11 +387,12 @@ class simplify_chained_calls(FuncADLNodeTransformer):
         seq.Where(x: f(x)).SelectMany(y: g(y))
         """
         selection = args[1]
-        assert isinstance(selection, ast.Lambda)
         parent_select = self.visit(args[0])
-        if is_call_of(parent_select, "SelectMany"):
+        if not isinstance(selection, ast.Lambda):
+            return function_call("SelectMany", [parent_select, self.visit(selection)])
+        if _is_op_with_lambda(parent_select, "SelectMany"):
             return self.visit_SelectMany_of_SelectMany(parent_select, selection)
-        elif is_call_of(parent_select, "Select"):
+        elif _is_op_with_lambda(parent_select, "Select"):
             return self.visit_SelectMany_of_Select(parent_select, selection)
         else:
             return function_call("SelectMany", [parent_select, self.visit(selection)])
@@ -477,14 +490,15 @@ class simplify_chained_calls(FuncADLNodeTransformer):
         """
         source = args[0]
         filter = args[1]
-        assert isinstance(filter, ast.Lambda)
 
         parent_where = self.visit(source)
-        if is_call_of(parent_where, "Where"):
+        if not isinstance(filter, ast.Lambda):
+            return function_call("Where", [parent_where, self.visit(filter)])
+        if _is_op_with_lambda(parent_where, "Where"):
             return self.visit_Where_of_Where(parent_where, filter)
-        elif is_call_of(parent_where, "Select"):
+        elif _is_op_with_lambda(parent_where, "Select"):
             return self.visit_Where_of_Select(parent_where, filter)
-        elif is_call_of(parent_where, "SelectMany"):
+        elif _is_op_with_lambda(parent_where, "SelectMany"):
             return self.visit_Where_of_SelectMany(parent_where, filter)
         else:
             f = self.visit(filter)
